@@ -392,6 +392,14 @@ Fixpoint acc_loop (Q acc : Z) (gs : list Z) : Z * bool * nat :=
 
 Definition zsum (l : list Z) : Z := fold_right Z.add 0 l.
 
+(* the whole call of such a function: the loop, then the ordinary result check of the call
+   protocol on the value that is actually RETURNED (ret = its own size): for toDict that is
+   utils.FrozenDict(accumulator), wrapper + dict, not the accumulator object itself; a function
+   that returns a lazy generator has a small ret.  (raised?, steps made) *)
+Definition acc_call (Q a0 : Z) (gs : list Z) (ret : Z) : bool * nat :=
+  let '(_, b, n) := acc_loop Q a0 gs in
+  if b then (true, n) else (over_quota Q ret, n).
+
 (* ------------------------------------------------------------------------- *)
 (* registry facts (rows are generated into Gen/LimitFacts.v)                  *)
 (* ------------------------------------------------------------------------- *)
@@ -500,7 +508,7 @@ Inductive case :=
 (* a growth step through the engine *)
 | CCall (Q : Z) (args : list Z) (joint : bool) (result : Z) (raised : bool)
 (* an accumulator loop: observed (raised?, source items consumed) *)
-| CAcc (Q a0 : Z) (gs : list Z) (raised : bool) (steps : nat)
+| CAcc (Q a0 : Z) (gs : list Z) (ret : Z) (raised : bool) (steps : nat)
 (* a tree of calls evaluated as one statement: raised? *)
 | CChain (Q : Z) (fin : Z) (e : cexpr) (raised : bool).
 
@@ -523,8 +531,8 @@ Definition case_ok_with (sizeof : sizefn) (c : case) : bool :=
   | CMul Q k n sz c cs obs =>
     obs3_eqb (mul_obs (mul_eval (estimate sizeof) sizeof Q k n sz c cs)) obs
   | CCall Q args joint result raised => Bool.eqb (call_eval Q args joint result) raised
-  | CAcc Q a0 gs raised steps =>
-    let '(_, b, n) := acc_loop Q a0 gs in Bool.eqb b raised && Nat.eqb n steps
+  | CAcc Q a0 gs ret raised steps =>
+    let '(b, n) := acc_call Q a0 gs ret in Bool.eqb b raised && Nat.eqb n steps
   | CChain Q fin e raised =>
     Bool.eqb (match fst (crun Q (fun _ => fin) e) with None => true | Some _ => false end) raised
   end.
